@@ -121,7 +121,7 @@ class C19(Check):
             'Object counts 0, 1, few, and enough to fill 1..5 read chunks of 64 KiB. non-trivial = >= 2 objects; distinct = hash of the case')
     ASSUMPTIONS = ['orjson / json are trusted as JSON codecs; floats are finite; top-level items are dicts (domain of the property)']
     ANCHORS = ['rxsci/container/json.py', 'rxsci/io/file.py', 'rxsci/framing/line.py', 'rxsci/data/codec.py']
-    REQUIRED_TAGS = FILE_NAME_TAGS + ['none', 'gzip', 'zstd', 'stream', 'path', 'fileobj', 'open_obj', 'empty', 'multi-chunk', 'astral', 'whole-document', 'over-1MiB-compressible', 'gzip-ratio>32-over-2MiB', 'pushed-source', 'open_obj-with-short-reads', 'bom', 'open_obj-stdlib-codec', 'loader-built-before-the-dump', 'target-exists-empty']
+    REQUIRED_TAGS = FILE_NAME_TAGS + ['none', 'gzip', 'zstd', 'stream', 'path', 'fileobj', 'open_obj', 'empty', 'multi-chunk', 'astral', 'whole-document', 'over-1MiB-compressible', 'gzip-ratio>32-over-2MiB', 'pushed-source', 'open_obj-with-short-reads', 'bom', 'open_obj-stdlib-codec', 'open_obj-stdlib-codec-over-several-read-chunks', 'loader-built-before-the-dump', 'target-exists-empty']
     REQUIRED_OBSERVED = ['objects_compared', 'twin_dumps_read_back']
 
     def __init__(self):
@@ -149,6 +149,11 @@ class C19(Check):
         comps = [None, 'gzip', 'zstd']
         modes = ['stream', 'reframed', 'path', 'fileobj', 'open_obj', 'whole']
         for k in range(n):
+            if k in (9, 10, 11) and shard == 0:
+                # a stdlib opener as open_obj (its file object TRANSFORMS the data) on decoded content of several 64 KiB read chunks
+                yield {'objs': {'n': 601 + 3 * (k - 9), 'alpha': 'plain', 'maxstr': 200, 'pad': 0, 'long': 300, 'oseed': rng.randrange(1 << 30), 'fields': 4},
+                       'compression': None, 'mode': 'open_obj'}
+                continue
             if k % 40 == 4:
                 # (codec, identical records?, one long string): a 64 KiB compressed read chunk inflating to > 2 MiB needs
                 # a ratio above 32, i.e. identical records or a multi-MiB run inside one string
@@ -302,6 +307,8 @@ class C19(Check):
                 import lzma
                 opener = [bz2.open, lzma.open, _gzip.open][(len(objs) // 3) % 3]
                 out.tags.append('open_obj-stdlib-codec')
+                if sum(len(repr(o)) for o in objs) > 3 * 65536:
+                    out.tags.append('open_obj-stdlib-codec-over-several-read-chunks')
                 path = os.path.join(self._tmpdir(), 'o.bin')
                 if os.path.exists(path):
                     os.unlink(path)
